@@ -30,7 +30,8 @@ type Trig struct {
 type Op struct {
 	Op     string  `json:"op"`               // add del stop couple cycle trig
 	Conn   [][]int `json:"conn,omitempty"`   // add/del: each entry is [source, receiver, receiver, ...]
-	Status int     `json:"status,omitempty"` // couple: 1 none, 2 fb->err, 3 err->fb
+	Status int     `json:"status,omitempty"` // couple: 1 none, 2 fb->err (CoupleFBToErr true), 3 err->fb (CoupleErrToFB true)
+	ViaFB  bool    `json:"viafb,omitempty"`  // couple 1: through CoupleFBToErr(false) instead of CoupleErrToFB(false)
 	Len    int     `json:"len,omitempty"`    // cycle: samples per channel
 	Pulses [][]int `json:"pulses,omitempty"` // cycle: per channel, offsets where a pulse starts
 	Width  int     `json:"width,omitempty"`  // cycle: pulse width
@@ -64,7 +65,7 @@ type bench interface {
 	Source() *dastard.AnySource
 	Close()
 	block(chans [][]uint16, signed []bool, first, timeNs int64) dastard.VerifBlockResult
-	couple(status int) error
+	rpc() *dastard.VerifC09RPC
 }
 
 type genericBench struct{ *dastard.VerifBench }
@@ -72,16 +73,14 @@ type genericBench struct{ *dastard.VerifBench }
 func (g genericBench) block(chans [][]uint16, signed []bool, first, timeNs int64) dastard.VerifBlockResult {
 	return g.Block(chans, signed, first, timeNs, periodNs, nil, 0)
 }
-func (g genericBench) couple(status int) error {
-	return g.Source().SetCoupling(dastard.CouplingStatus(status))
-}
+func (g genericBench) rpc() *dastard.VerifC09RPC { return g.VerifC09RPC() }
 
 type lanceroBench struct{ *dastard.VerifC09Lancero }
 
 func (l lanceroBench) block(chans [][]uint16, signed []bool, first, timeNs int64) dastard.VerifBlockResult {
 	return l.Block(chans, signed, first, timeNs, periodNs)
 }
-func (l lanceroBench) couple(status int) error { return l.SetCoupling(status) }
+func (l lanceroBench) rpc() *dastard.VerifC09RPC { return l.VerifC09RPC() }
 
 func newBench(c Case) (bench, error) {
 	rate := 1e9 / float64(periodNs)
@@ -183,6 +182,8 @@ type stepObs struct {
 	Op        string          `json:"op"`
 	Reported  [][2]int        `json:"reported,omitempty"`
 	Counter   int             `json:"counter,omitempty"`
+	Coupling  int             `json:"trigcoupling,omitempty"`
+	Refused   bool            `json:"request_refused,omitempty"`
 	First     int64           `json:"first,omitempty"`
 	Primaries [][]int64       `json:"primaries,omitempty"`
 	SecFrames [][]int64       `json:"secondary_frames,omitempty"`
@@ -295,6 +296,34 @@ func runCase(c Case) lib.Result {
 	signed := signedOf(c)
 	var terms []string
 	var impl []stepObs
+	// the RPC layer: requests go through SourceControl's entry points, "reported" is what a client was last sent
+	rpc := b.rpc()
+	defer rpc.Close()
+	view := [][2]int{}
+	coup := 0
+	sawGroupMsg := false
+	absorb := func() {
+		for _, m := range rpc.Updates() {
+			switch m.Tag {
+			case "GROUPTRIGGER":
+				var g dastard.GroupTriggerState
+				if err := json.Unmarshal([]byte(m.JSON), &g); err != nil {
+					panic(err)
+				}
+				view = pairsOf(g)
+				sawGroupMsg = true
+			case "TRIGCOUPLING":
+				if err := json.Unmarshal([]byte(m.JSON), &coup); err != nil {
+					panic(err)
+				}
+			}
+		}
+	}
+	absorb() // the broadcast of the fresh state, as Start does
+	initView := view
+	if !sawGroupMsg {
+		tags["no-initial-grouptrigger-message"] = true
+	}
 	tAbs := int64(0) // samples delivered so far
 	nontrivial := false
 	// harness-side bookkeeping of the intended set, for tags only
@@ -316,6 +345,7 @@ loop:
 			}
 			break
 		}
+		refused := false
 		switch o.Op {
 		case "trig":
 			if o.Trig != nil {
@@ -325,9 +355,13 @@ loop:
 			continue // not part of the modelled history: it only influences which primaries fire
 		case "add", "del":
 			m, _ := connMap(o.Conn)
+			nvalid := 0
 			for s, rxs := range m {
 				seen := map[int]bool{}
 				for _, r := range rxs {
+					if s != r && inRange(s) && inRange(r) {
+						nvalid++
+					}
 					switch {
 					case s == r:
 						tags["self-pair"] = true
@@ -358,18 +392,43 @@ loop:
 					}
 				}
 			}
-			ds.ChangeGroupTrigger(o.Op == "add", &dastard.GroupTriggerState{Connections: m})
-		case "stop":
-			// what the RPC StopTriggerCoupling does
-			if err := ds.StopTriggerCoupling(); err == nil {
-				b.couple(1)
+			var reply bool
+			var err error
+			if o.Op == "add" {
+				err = rpc.SC.AddGroupTriggerCoupling(dastard.GroupTriggerState{Connections: m}, &reply)
+			} else {
+				err = rpc.SC.DeleteGroupTriggerCoupling(&dastard.GroupTriggerState{Connections: m}, &reply)
 			}
+			refused = err != nil
+			if refused {
+				tags["request-answered-with-error"] = true
+				if nvalid > 0 {
+					tags["refused-request-with-valid-connections"] = true
+				}
+			}
+		case "stop":
+			var dummy, reply bool
+			refused = rpc.SC.StopTriggerCoupling(&dummy, &reply) != nil
 			if len(intended) > 0 {
 				tags["stop-with-connections"] = true
 			}
 			intended = map[[2]int]bool{}
 		case "couple":
-			b.couple(o.Status)
+			var reply bool
+			on, off := true, false
+			switch o.Status {
+			case 3:
+				refused = rpc.SC.CoupleErrToFB(&on, &reply) != nil
+			case 2:
+				refused = rpc.SC.CoupleFBToErr(&on, &reply) != nil
+			default:
+				o.Status = 1
+				if o.ViaFB {
+					refused = rpc.SC.CoupleFBToErr(&off, &reply) != nil
+				} else {
+					refused = rpc.SC.CoupleErrToFB(&off, &reply) != nil
+				}
+			}
 			if c.Lancero {
 				tags[fmt.Sprintf("couple-lancero-%d", o.Status)] = true
 				for i := 0; i+1 < c.Nchan; i += 2 {
@@ -478,10 +537,11 @@ loop:
 		default:
 			continue
 		}
-		// after every edit: the state a client would be told, and the broker's counter
-		rep := pairsOf(ds.ComputeGroupTriggerState())
+		// after every request: what a client has been told last, and the broker's counter
+		absorb()
+		rep := view
 		cnt := ds.VerifBrokerCount()
-		impl = append(impl, stepObs{Op: o.Op, Reported: rep, Counter: cnt})
+		impl = append(impl, stepObs{Op: o.Op, Reported: rep, Counter: cnt, Coupling: coup, Refused: refused})
 		var ctor string
 		switch o.Op {
 		case "add":
@@ -493,9 +553,9 @@ loop:
 		case "couple":
 			ctor = "Co " + lib.Z(int64(o.Status))
 		}
-		terms = append(terms, fmt.Sprintf("%s %s %s", ctor, pairsTerm(rep), lib.Z(int64(cnt))))
+		terms = append(terms, fmt.Sprintf("%s %s %s %s", ctor, pairsTerm(rep), lib.Z(int64(cnt)), lib.Z(int64(coup))))
 	}
-	res.Term = fmt.Sprintf("mk %s %d %d %d %s", lib.B(c.Lancero), c.Nchan, c.Npre, c.Nsamp, lib.List(terms))
+	res.Term = fmt.Sprintf("mk %s %d %d %d %s %s", lib.B(c.Lancero), c.Nchan, c.Npre, c.Nsamp, pairsTerm(initView), lib.List(terms))
 	res.Impl = impl
 	res.NonTrivial = nontrivial
 	for t := range tags {
@@ -618,6 +678,22 @@ func corpus() []Case {
 			Ops: []Op{{Op: "couple", Status: 3}, cy(40, []int{10}, []int{20}, nil, []int{30}), {Op: "couple", Status: 2},
 				cy(40, []int{10}, []int{20}, nil, []int{30}), {Op: "add", Conn: [][]int{{0, 1, 3}}}, {Op: "couple", Status: 1},
 				cy(40, []int{10}, []int{20}, nil, []int{30}), {Op: "couple", Status: 3}, {Op: "stop"}, cy(40, []int{10}, []int{20}, nil, []int{30})}},
+		// one request mixing valid and out-of-range indices: the valid part takes effect, the request is answered with
+		// an error, and clients must still be told the new state (add and delete)
+		{Nchan: 4, Npre: 3, Nsamp: 8, F0: 300, Trigs: []Trig{lvl(0, 1, 2, 3)},
+			Ops: []Op{{Op: "add", Conn: [][]int{{0, 1, 7}}}, cy(40, []int{10}, nil, nil, nil),
+				{Op: "add", Conn: [][]int{{2, 3}}}, {Op: "del", Conn: [][]int{{0, 1, -1}, {2, 9}}}, cy(40, []int{10}, nil, []int{20}, nil),
+				{Op: "add", Conn: [][]int{{9, 1}, {1, 0}}}, cy(40, []int{10}, []int{25}, nil, nil)}},
+		// coupling changes delete pairs that group-trigger requests added; clients must see that
+		{Lancero: true, Ncols: 1, Nrows: 2, Npre: 3, Nsamp: 8, F0: 0, Trigs: []Trig{lvl(0, 1, 2, 3)},
+			Ops: []Op{{Op: "add", Conn: [][]int{{1, 0, 5}, {0, 1}, {0, 2}}}, cy(40, []int{10}, []int{20}, nil, nil),
+				{Op: "couple", Status: 1, ViaFB: true}, cy(40, []int{10}, []int{20}, nil, nil),
+				{Op: "couple", Status: 2}, cy(40, []int{10}, []int{20}, nil, []int{30})}},
+		// the same coupling requested again after other requests edited the err/fb pairs
+		{Lancero: true, Ncols: 1, Nrows: 1, Npre: 3, Nsamp: 8, F0: 0, Trigs: []Trig{lvl(0, 1)},
+			Ops: []Op{{Op: "couple", Status: 2}, {Op: "del", Conn: [][]int{{1, 0}}}, {Op: "couple", Status: 2}, cy(40, nil, []int{20}),
+				{Op: "couple", Status: 3}, {Op: "stop"}, {Op: "couple", Status: 3}, cy(40, []int{10}, nil),
+				{Op: "couple", Status: 1}, {Op: "add", Conn: [][]int{{0, 1}}}, {Op: "couple", Status: 1, ViaFB: true}, cy(40, []int{10}, nil)}},
 		// auto triggers: every source fires at the same frames
 		{Nchan: 3, Npre: 3, Nsamp: 6, F0: 10, Trigs: []Trig{{Chans: []int{0, 1}, Auto: true, AutoFrames: 9}},
 			Ops: []Op{{Op: "add", Conn: [][]int{{0, 2}, {1, 2}, {1, 0}}}, cy(25), cy(1), cy(2), cy(25), {Op: "del", Conn: [][]int{{1, 2}}}, cy(25)}},
@@ -756,11 +832,7 @@ func genCase(r *lib.Rng, id int64, tier string) Case {
 		case x < 16:
 			c.Ops = append(c.Ops, Op{Op: "stop"})
 		case x < 18:
-			st := r.Range(1, 3)
-			if malformed && r.Chance(1, 5) {
-				st = r.Pick([]int{0, 4, -1})
-			}
-			c.Ops = append(c.Ops, Op{Op: "couple", Status: st})
+			c.Ops = append(c.Ops, Op{Op: "couple", Status: r.Range(1, 3), ViaFB: r.Bool()})
 		case x < 19:
 			// dense connections: everybody to everybody
 			var conn [][]int
@@ -776,6 +848,24 @@ func genCase(r *lib.Rng, id int64, tier string) Case {
 			ch := r.Intn(c.Nchan)
 			c.Ops = append(c.Ops, Op{Op: "trig", Trig: &Trig{Chans: []int{ch}, Level: true}})
 		}
+	}
+	if c.Lancero && r.Chance(1, 2) {
+		// the same coupling requested twice, with the err/fb pairs edited in between by other requests
+		st := r.Range(1, 3)
+		k := 2 * r.Intn(c.Nchan/2)
+		var mid Op
+		switch r.Intn(4) {
+		case 0:
+			mid = Op{Op: "del", Conn: [][]int{{k, k + 1}, {k + 1, k}}}
+		case 1:
+			mid = Op{Op: "add", Conn: [][]int{{k, k + 1}, {k + 1, k}}}
+		case 2:
+			mid = Op{Op: "stop"}
+		default:
+			mid = Op{Op: "add", Conn: [][]int{{k + 1, k, c.Nchan}}}
+		}
+		c.Ops = append(c.Ops, Op{Op: "couple", Status: st}, mid, Op{Op: "couple", Status: st, ViaFB: r.Bool()}, randCycle(r, &c, &fired))
+		ncyc++
 	}
 	if ncyc == 0 {
 		c.Ops = append(c.Ops, randCycle(r, &c, &fired))
